@@ -231,6 +231,7 @@ def run(tier):
 
 def replay(rec):
     global CFG
+    corpora.load_all()
     if rec.get('kind') != 'wipe':
         return None
     CFG = rec.get('cfg', 'asan')
